@@ -102,7 +102,7 @@ def u_tag_algebra(c):
     c.prove("get_tags/string-and-object-forms-coincide", st == "ok" and it.truth(it.compare(ast.Eq(), mixed, ab)))
 
 
-ANN_STRINGS = ["@A", "@A & @B", "@A&@B", "@A  &   @B", "@B & @A & @C", "@A & @A", "not a tag", "A & B"]
+ANN_STRINGS = ["@A", "@A & @B", "@A&@B", "@A  &   @B", "@B & @A & @C", "@A & @A", "not a tag", "A & B", "@A ", "@A & @B ", "@A  &  @B  "]
 
 
 @unit("_ann", ["C11"], [TR + ":PteraTransformer._ann", TR + ":PteraTransformer._get"], mode="bounded",
